@@ -87,7 +87,7 @@ Section Silent.
   Proof. unfold drop_req. destruct (e_res e); [apply sx_refl | apply sx_chan_drop_tx | apply sx_chan_drop_tx | apply sx_refl]. Qed.
   Lemma sx_kill_flag u H : suffX H (kill_flag u H). Proof. apply sx_same; reflexivity. Qed.
   Lemma sx_sub_drop q H : suffX H (sub_drop q H).
-  Proof. unfold sub_drop. destruct q as [s d tg v ch|m]; [|apply sx_refl]. destruct d; [apply sx_refl | apply sx_chan_drop_rx]. Qed.
+  Proof. unfold sub_drop. destruct q as [s d tg v ch|m|s tg v ch]; [|apply sx_refl|apply sx_chan_drop_rx]. destruct d; [apply sx_refl | apply sx_chan_drop_rx]. Qed.
   Lemma sx_drop : forall fuel,
     (forall fs H, suffX H (drop_fs fuel fs H)) /\ (forall cid H, suffX H (drop_cmd fuel cid H)).
   Proof.
@@ -157,9 +157,15 @@ Section Silent.
   Qed.
   Lemma sx_sub_poll c w q H q' H' : c <> X -> sub_poll c w q H = (q', H') -> suffX H H'.
   Proof.
-    intros Hne. unfold sub_poll. destruct q as [sent dead tg v ch|m]; [|intros E; inversion E; subst; apply sx_refl].
-    destruct (req_poll c w sent dead tg v ch H) as [[[o s'] d'] H1] eqn:E1. apply (sx_req_poll _ _ _ _ _ _ _ _ _ _ _ _ Hne) in E1.
-    destruct o; intros E; inversion E; subst; exact E1.
+    intros Hne. unfold sub_poll. destruct q as [sent dead tg v ch|m|sent tg v ch].
+    - destruct (req_poll c w sent dead tg v ch H) as [[[o s'] d'] H1] eqn:E1. apply (sx_req_poll _ _ _ _ _ _ _ _ _ _ _ _ Hne) in E1.
+      destruct o; intros E; inversion E; subst; exact E1.
+    - intros E; inversion E; subst; apply sx_refl.
+    - set (H1 := if sent then H else push_hout (mkEff tg v [] (RLegacy ch)) H).
+      assert (S1 : suffX H H1) by (subst H1; destruct sent; [apply sx_refl | apply sx_same; reflexivity]).
+      destruct (ch_buf (gch ch H1)); intros E; inversion E; subst.
+      + eapply sx_trans; [exact S1 | apply sx_chan_reg].
+      + eapply sx_trans; [exact S1 | apply sx_chan_drop_rx].
   Qed.
 
   (* ---- part B: the five runtime functions, while X is aborted ---- *)
@@ -221,6 +227,9 @@ Section Silent.
         * destruct (new_chan H) as [ch1 H1] eqn:E1. destruct (new_chan H1) as [ch2 H2] eqn:E2.
           go_ih IHp Hne E A ltac:(eapply Rmeta_trans; [eapply rm_new_chan; exact E1 | eapply rm_new_chan; exact E2])
                 ltac:(eapply sx_trans; [eapply sx_new_chan; exact E1 | eapply sx_new_chan; exact E2]).
+        * destruct (new_chan H) as [ch1 H1] eqn:E1. destruct (new_chan H1) as [ch2 H2] eqn:E2.
+          go_ih IHp Hne E A ltac:(eapply Rmeta_trans; [eapply rm_new_chan; exact E1 | eapply rm_new_chan; exact E2])
+                ltac:(eapply sx_trans; [eapply sx_new_chan; exact E1 | eapply sx_new_chan; exact E2]).
         * destruct (new_cmd _ _ _ _ _ _) as [cid H1] eqn:E1.
           go_ih IHp Hne E A ltac:(eapply (R_new_cmd Rmeta Rmeta_refl Rmeta_trans Rmeta_ucmd); [intros; apply Rmeta_same_cmds; reflexivity | apply Rmeta_add_cmd | exact E1])
                 ltac:(eapply sx_new_cmd; exact E1).
@@ -267,7 +276,7 @@ Section Silent.
         assert (M12 : Rmeta H H2).
         { eapply Rmeta_trans; eapply (R_sub_poll Rmeta Rmeta_refl Rmeta_trans Rmeta_ucmd); try eassumption; intros; apply Rmeta_same_cmds; reflexivity. }
         assert (S02 : suffX H H2) by (eapply sx_trans; eassumption).
-        destruct a'; [inversion E; subst; exact S02|]. destruct b'; [inversion E; subst; exact S02|].
+        destruct a'; try (inversion E; subst; exact S02). destruct b'; try (inversion E; subst; exact S02).
         go_ih IHp Hne E A ltac:(exact M12) ltac:(exact S02).
       + (* LRace *)
         destruct (sub_poll c w qa H) as [a' H1] eqn:E1.
@@ -279,12 +288,18 @@ Section Silent.
           pose proof (sx_sub_poll _ _ _ _ _ _ Hne E2) as S2.
           assert (M2 : Rmeta H1 H2).
           { eapply (R_sub_poll Rmeta Rmeta_refl Rmeta_trans Rmeta_ucmd); try eassumption; intros; apply Rmeta_same_cmds; reflexivity. }
-          destruct b'.
-          -- inversion E; subst. eapply sx_trans; eassumption.
-          -- go_ih IHp Hne E A ltac:(eapply Rmeta_trans; [exact M1|]; eapply Rmeta_trans; [exact M2|]; apply (R_sub_drop Rmeta Rmeta_refl); intros; apply Rmeta_same_cmds; reflexivity)
+          destruct b'; try (inversion E; subst; eapply sx_trans; eassumption).
+          go_ih IHp Hne E A ltac:(eapply Rmeta_trans; [exact M1|]; eapply Rmeta_trans; [exact M2|]; apply (R_sub_drop Rmeta Rmeta_refl); intros; apply Rmeta_same_cmds; reflexivity)
                    ltac:(eapply sx_trans; [exact S1|]; eapply sx_trans; [exact S2 | apply sx_sub_drop]).
         * go_ih IHp Hne E A ltac:(eapply Rmeta_trans; [exact M1|]; apply (R_sub_drop Rmeta Rmeta_refl); intros; apply Rmeta_same_cmds; reflexivity)
                 ltac:(eapply sx_trans; [exact S1 | apply sx_sub_drop]).
+        * destruct (sub_poll c w qb H1) as [b' H2] eqn:E2.
+          pose proof (sx_sub_poll _ _ _ _ _ _ Hne E2) as S2.
+          assert (M2 : Rmeta H1 H2).
+          { eapply (R_sub_poll Rmeta Rmeta_refl Rmeta_trans Rmeta_ucmd); try eassumption; intros; apply Rmeta_same_cmds; reflexivity. }
+          destruct b'; try (inversion E; subst; eapply sx_trans; eassumption).
+          go_ih IHp Hne E A ltac:(eapply Rmeta_trans; [exact M1|]; eapply Rmeta_trans; [exact M2|]; apply (R_sub_drop Rmeta Rmeta_refl); intros; apply Rmeta_same_cmds; reflexivity)
+                   ltac:(eapply sx_trans; [exact S1|]; eapply sx_trans; [exact S2 | apply sx_sub_drop]).
     - (* poll_next *)
       intros cid w H r H' A E. cbn [step_funs rpoll_next] in E. unfold poll_next_body in E.
       set (H0 := ucmd cid (set_atomic (Some w)) H) in *.
